@@ -8,11 +8,11 @@ const (
 	OK               Status = iota // ends after the literals of a sequence whose match nibble is 0
 	OKEndsAfterMatch               // input exhausted right after a match: not a well-formed block, but
 	// not one of the error classes the properties name; the oracles treat it as "unspecified"
-	ErrEmpty         // no token at all
-	ErrZeroOffset    // offset field 0
-	ErrOffsetRange   // offset reaches before the start of dictionary+output
-	ErrTruncated     // a length, literal run, offset or match is cut by the end of input
-	ErrOverflow      // more output than max
+	ErrEmpty       // no token at all
+	ErrZeroOffset  // offset field 0
+	ErrOffsetRange // offset reaches before the start of dictionary+output
+	ErrTruncated   // a length, literal run, offset or match is cut by the end of input
+	ErrOverflow    // more output than max
 )
 
 func (s Status) String() string {
